@@ -39,6 +39,10 @@ func parse(b []byte, callback func([]byte)) error {
 			if quote {
 				continue
 			}
+			if brace == 0 {
+				// skip what separates this element from the one before it
+				last = i
+			}
 			brace++
 
 		case close:
